@@ -132,7 +132,8 @@ class ValV:
         self.nonempty = I.input("bool", "is_non_empty").e
 
     def truth(self, I):
-        return self.nonempty
+        # Python truthiness: an empty value is falsy - and so is the NUMBER 0 (IS/DS values are numbers), which is a value
+        return z3.And(self.nonempty, z3.BoolVal(not getattr(self, "is_zero", False)))
 
     def sym_contains(self, I, item):
         return {"*": self.star, "?": self.qm, "-": self.dash}[item]
@@ -162,17 +163,28 @@ class BuildQueryTask(Task):
         P = f"C29/{DB}:build_query"
         vrs = TEXT_VR + DATE_VR + ["UI", "IS", "SQ"]
         vr = vrs[I.choose(len(vrs), "VR")]
-        is_none = I.choose(2, "value is None") == 1
+        # how the key's value reaches build_query: None (set by a local caller), zero-length as pydicom decodes it off the wire
+        # ('' for text, an empty list for multi-valued VRs: VM 0), one value, or - UIDs only - several values
+        kinds = ["None", "empty", "one"] + (["several"] if vr == "UI" else []) + (["the number 0"] if vr == "IS" else [])
+        kind_v = kinds[I.choose(len(kinds), "value")]
+        is_none = kind_v == "None"
         val = None if is_none else ValV(I)
+        vm = {"None": 0, "empty": 0, "one": 1, "several": 2, "the number 0": 1}[kind_v]
         if val is not None:
-            # a value that contains a character is not empty
-            I.assume(z3.Implies(z3.Or(val.star, val.qm, val.dash), val.nonempty))
+            val.nonempty = z3.BoolVal(kind_v != "empty")
+            val.is_zero = kind_v == "the number 0"
+            if val.is_zero:
+                I.assume(z3.Not(z3.Or(val.star, val.qm, val.dash)))
+            if kind_v == "empty":
+                I.assume(z3.Not(z3.Or(val.star, val.qm, val.dash)))
 
         class E:
             keyword = "PatientID"
 
             def sym_getattr(self, I_, name):
-                return {"keyword": "PatientID", "VR": vr, "value": val, "VM": 1}.get(name, NotImplemented)
+                if name == "is_empty":
+                    return vm == 0
+                return {"keyword": "PatientID", "VR": vr, "value": val, "VM": vm}.get(name, NotImplemented)
         el = E()
 
         class Ident:
@@ -183,11 +195,17 @@ class BuildQueryTask(Task):
         calls = [e.args[0] for e in I.trace if e.name == "search"]
         # PS3.4 C.2.2.2 (independent dispatch)
         if vr == "SQ":
-            want = None if not is_none else "_search_universal"
+            want = None if vm else "_search_universal"
             I.ob(f"{P}/sequence-matching-is-not-applied-to-the-supported-keys", calls == ([want] if want else []) or calls == [], detail=str(calls))
             return
-        if is_none:
-            I.ob(f"{P}/an-empty-key-means-universal-matching", calls == ["_search_universal"], detail=f"{vr}: {calls}")
+        if vm == 0:
+            # C.2.2.2.3: a zero-length key matches everything - however the decoder represents "zero-length"
+            I.ob(f"{P}/an-empty-key-means-universal-matching", calls == ["_search_universal"] or (vr == "UI" and calls == ["_search_uid_list"]),
+                 detail=f"{vr}, value {kind_v}: {calls}")
+            return
+        if kind_v == "several":
+            # C.2.2.2.2: a key with several UIDs matches any of them
+            I.ob(f"{P}/a-key-with-several-UIDs-means-list-of-UID-matching", calls == ["_search_uid_list"], detail=f"{calls}")
             return
         wild = z3.Or(val.star, val.qm) if vr in TEXT_VR else z3.BoolVal(False)
         rng = val.dash if vr in DATE_VR else z3.BoolVal(False)
@@ -195,7 +213,9 @@ class BuildQueryTask(Task):
         I.ob(f"{P}/exactly-one-matching-kind-per-key", len(calls) == 1, detail=str(calls))
         I.ob(f"{P}/wild-card-matching-exactly-for-text-values-with-*-or-?", wild == z3.BoolVal(got == "_search_wildcard"), detail=f"{vr}: {got}")
         I.ob(f"{P}/range-matching-exactly-for-date-time-values-with-a-hyphen", rng == z3.BoolVal(got == "_search_range"), detail=f"{vr}: {got}")
-        I.ob(f"{P}/single-value-matching-otherwise", z3.Implies(z3.Not(z3.Or(wild, rng)), z3.BoolVal(got == "_search_single_value")),
+        # a single UID is matched by equality either way (_search_uid_list with one value is `==`)
+        single = got == "_search_single_value" or (vr == "UI" and got == "_search_uid_list")
+        I.ob(f"{P}/single-value-matching-otherwise", z3.Implies(z3.Not(z3.Or(wild, rng)), z3.BoolVal(single)),
              detail=f"{vr}: {got}")
 
 
